@@ -224,21 +224,8 @@ def check(rep, F, tier, replay=None):
                 good = True
         if not good:
             rep.violation("WIT-stored", key, "%s hands its witness only to `entry(voter).or_insert(..)`: when the voter already has an entry (a second vote of the same voter) the new witness - its script, datum, redeemer, declared signers, reference input - is silently dropped while the call returns Ok" % key, {})
-    # DATUM-id: the ordered-set de-duplication is only right because PlutusData's Ord tells different encodings apart
-    rep.rule("DATUM-id", "PlutusData's Ord (the relation every datum de-duplication uses) compares the preserved original bytes as well as the value: a datum is identified on chain by the hash of its bytes")
-    pd = [a for a in F.adts if a.endswith("plutus_data::PlutusData")]
-    if len(pd) != 1:
-        rep.lost("PlutusData not found")
-    else:
-        rep.inst("DATUM-id")
-        om = [im for im in F.impls if (im.get("trait") or "").startswith("std::cmp::Ord") and (im.get("self_adt") or im["self_ty"]) == pd[0]]
-        if not om:
-            rep.violation("DATUM-id", "PlutusData|no-ord", "PlutusData has no Ord impl any more", {})
-        elif not om[0].get("derive"):
-            mid = [m["id"] for m in om[0]["methods"] if m["name"] == "cmp"]
-            rd = {f for (a, f) in fields_read(F, mid[0], depth=2) if a == pd[0]} if mid and mid[0] in F.fns else set()
-            if "original_bytes" not in rd or "datum" not in rd:
-                rep.violation("DATUM-id", "PlutusData|ord-basis|%s" % ",".join(sorted(rd)), "PlutusData's hand-written Ord compares %s only: two datums with equal value but different preserved bytes (different hashes, both required by their inputs) collapse to one in every witness-set de-duplication" % sorted(rd), {})
+    from ruleutil import datum_id_rule
+    datum_id_rule(rep, F)
     # BOOT-set: one fake bootstrap witness per distinct Byron address over inputs AND collateral
     rep.rule("BOOT-set", "fake_full_tx merges the Byron addresses of inputs and collateral in an ordered set before counting / creating fake bootstrap witnesses (an address used for both is witnessed once)")
     fid = find_fn(rep, F, "builders::tx_builder::fake_full_tx")
